@@ -110,7 +110,8 @@ theorem g_neg (tbl : Tables) (e : Expr) : g tbl (.neg e) = ⟨"DASH", "-"⟩ :: 
   simp only [g, gen, genI, toks, kw, toks_append]
   split <;> simp [toks]
 theorem g_bnot (tbl : Tables) (e : Expr) : g tbl (.bnot e) = ⟨"TILDE", "~"⟩ :: g tbl e := by
-  simp [g, gen, genI, toks, kw]
+  simp only [g, gen, genI, toks, kw, toks_append]
+  split <;> simp [toks]
 theorem g_not (tbl : Tables) (e : Expr) : g tbl (.not e) = ⟨"NOT", "NOT"⟩ :: g tbl e := by
   simp [g, gen, genI, toks, kw]
 theorem g_bin (tbl : Tables) (cls : String) (l r : Expr) :
